@@ -273,8 +273,9 @@ def check(prop: str, tier: str, verif_seed: int) -> int:
         'wall_s': round(wall, 2),
         'violations': len(by_oracle),
     }
-    os.makedirs(os.path.join(core.VERIF_ROOT, 'evidence'), exist_ok=True)
-    path = os.path.join(core.VERIF_ROOT, 'evidence', f'{prop}.json')
+    evdir = os.environ.get('BIOSIM_EVIDENCE_DIR') or os.path.join(core.VERIF_ROOT, 'evidence')
+    os.makedirs(evdir, exist_ok=True)
+    path = os.path.join(evdir, f'{prop}.json')
     tmp = path + '.tmp'
     with open(tmp, 'w', encoding='utf-8') as f:
         json.dump(ev, f, indent=1, sort_keys=True, default=str)
